@@ -160,6 +160,8 @@ pub struct Endpoint {
     pub pad_streams: std::collections::BTreeSet<u32>,
     /// responder: last stream id named in the GOAWAY this endpoint sent
     pub goaway_sent: Option<u32>,
+    /// DATA frames sent by `Step::H2Data` carry this much padding (flow-controlled, counted against the windows)
+    pub pad_data: Option<u8>,
     pub auto_ack: bool,
     unreturned_conn: i64,
     unreturned_stream: BTreeMap<u32, i64>,
@@ -193,6 +195,7 @@ impl Endpoint {
             protocol_errors: vec![],
             pad_streams: Default::default(),
             goaway_sent: None,
+            pad_data: None,
             auto_ack: true,
             unreturned_conn: 0,
             unreturned_stream: BTreeMap::new(),
